@@ -91,9 +91,10 @@ func stripZeros(s string) string {
 // ClassifyStatus judges a status token: "" = right (literally "101"), else a
 // label prefixed with "fail:" or "open:".
 //
-// Statement: "a status code that is literally 101". A token containing a
-// non-digit, or whose mathematical value is not 101, must fail; an all-digit
-// token with value 101 that is not literally "101" (leading zeros) is open.
+// Statement: "a status code that is literally 101" (RFC 7230: status-code =
+// 3DIGIT). A token containing a non-digit, or whose mathematical value is not
+// 101, must fail; so must an all-digit token with value 101 that is not
+// literally "101" ("0101", "00101", ...).
 func ClassifyStatus(tok string) string {
 	switch {
 	case tok == "101":
@@ -101,7 +102,7 @@ func ClassifyStatus(tok string) string {
 	case !allDigits(tok):
 		return "fail:status:nondigit"
 	case stripZeros(tok) == "101":
-		return "open:status:leading-zero"
+		return "fail:status:not-literal"
 	}
 	return "fail:status:value"
 }
